@@ -565,3 +565,150 @@ Proof.
   - intro H. exact (strip_fields_complete L reqs r s a Hu Hr Hs Ha H).
   - intro H. apply strip_fields_sound in H. apply H.
 Qed.
+
+(* ------------------------------------------------------------------ *)
+(* the request on the wire                                              *)
+
+Lemma find_all_same (n : string) (v : bytes) (log : list (string * bytes)) :
+  (forall kv, In kv log -> fst kv = n -> snd kv = v) -> (exists kv, In kv log /\ fst kv = n) ->
+  exists kv, find (fun kv => String.eqb (fst kv) n) log = Some kv /\ snd kv = v.
+Proof.
+  intros Hall [kv0 [Hin Hn]].
+  destruct (find (fun kv => String.eqb (fst kv) n) log) as [kv|] eqn:E.
+  - exists kv. split; [reflexivity|]. apply find_some in E. destruct E as [Hk He].
+    apply String.eqb_eq in He. exact (Hall kv Hk He).
+  - exfalso. pose proof (find_none _ _ E kv0 Hin) as H. simpl in H. rewrite Hn, String.eqb_refl in H. discriminate.
+Qed.
+
+Lemma get_last_all_same n v log :
+  (forall kv, In kv log -> fst kv = n -> snd kv = v) -> (exists kv, In kv log /\ fst kv = n) -> get_last n log = Some v.
+Proof.
+  intros Hall [kv0 [Hin Hn]]. unfold get_last.
+  destruct (find_all_same n v (rev log)) as [kv [-> Hv]].
+  - intros kv Hk. apply Hall. apply in_rev. exact Hk.
+  - exists kv0. split; [apply in_rev; rewrite rev_involutive; exact Hin|exact Hn].
+  - rewrite Hv. reflexivity.
+Qed.
+
+Lemma get_first_all_same n v log :
+  (forall kv, In kv log -> fst kv = n -> snd kv = v) -> (exists kv, In kv log /\ fst kv = n) -> get_first n log = Some v.
+Proof.
+  intros Hall Hex. unfold get_first. destruct (find_all_same n v log Hall Hex) as [kv [-> Hv]]. rewrite Hv. reflexivity.
+Qed.
+
+Lemma in_hdr_write b fs n x : In (n, x) (flat_map (hdr_write b) fs) <->
+  exists f, In f fs /\ f_place f = PHeader n /\ x = add_prefix (b && String.eqb n authorization) (f_val f).
+Proof.
+  rewrite in_flat_map. split.
+  - intros [f [Hf Hin]]. unfold hdr_write in Hin. destruct (f_place f) eqn:E; simpl in Hin; try contradiction.
+    destruct Hin as [Heq|[]]. inversion Heq; subst. exists f. repeat split; assumption.
+  - intros [f [Hf [Hp ->]]]. exists f. split; [exact Hf|]. unfold hdr_write. rewrite Hp. left. reflexivity.
+Qed.
+
+Lemma in_qry_write fs n x : In (n, x) (flat_map qry_write fs) <-> exists f, In f fs /\ f_place f = PQuery n /\ x = f_val f.
+Proof.
+  rewrite in_flat_map. split.
+  - intros [f [Hf Hin]]. unfold qry_write in Hin. destruct (f_place f) eqn:E; simpl in Hin; try contradiction.
+    destruct Hin as [Heq|[]]. inversion Heq; subst. exists f. repeat split; assumption.
+  - intros [f [Hf [Hp ->]]]. exists f. split; [exact Hf|]. unfold qry_write. rewrite Hp. left. reflexivity.
+Qed.
+
+Lemma in_body_write fs n x : In (n, x) (flat_map body_write fs) <-> exists f, In f fs /\ f_place f = PBody n /\ x = f_val f.
+Proof.
+  rewrite in_flat_map. split.
+  - intros [f [Hf Hin]]. unfold body_write in Hin. destruct (f_place f) eqn:E; simpl in Hin; try contradiction.
+    destruct Hin as [Heq|[]]. inversion Heq; subst. exists f. repeat split; assumption.
+  - intros [f [Hf [Hp ->]]]. exists f. split; [exact Hf|]. unfold body_write. rewrite Hp. left. reflexivity.
+Qed.
+
+Lemma encode_wire_inv b basic fs w : encode_wire b basic fs = Some w ->
+  exists bh, w_hdr w = flat_map (hdr_write b) fs ++ bh /\ w_qry w = flat_map qry_write fs /\ w_body w = flat_map body_write fs /\
+    match basic with
+    | None => bh = []
+    | Some (u, pw) => has_colon u = false /\ bh = [(authorization, basic_word ++ basic_join u pw)]
+    end.
+Proof.
+  unfold encode_wire. destruct basic as [[u pw]|].
+  - destruct (has_colon u) eqn:E; [discriminate|]. intro H. inversion H; subst; simpl.
+    eexists. repeat split; reflexivity.
+  - intro H. inversion H; subst; simpl. exists []. repeat split; reflexivity.
+Qed.
+
+(* several set fields writing one header with one value: the header holds that value *)
+Lemma wire_header_value b basic fs w n v :
+  encode_wire b basic fs = Some w -> (basic = None \/ n <> authorization) ->
+  (forall f, In f fs -> f_place f = PHeader n -> f_val f = v) ->
+  (exists f, In f fs /\ f_place f = PHeader n) ->
+  get_last n (w_hdr w) = Some (add_prefix (b && String.eqb n authorization) v).
+Proof.
+  intros He Hb Hall [f0 [Hf0 Hp0]]. destruct (encode_wire_inv _ _ _ _ He) as [bh [Hh [_ [_ Hbh]]]]. rewrite Hh.
+  apply get_last_all_same.
+  - intros [m x] Hin Hm. simpl in Hm. subst m. simpl. apply in_app_or in Hin. destruct Hin as [Hin|Hin].
+    + apply in_hdr_write in Hin. destruct Hin as [f [Hf [Hp ->]]]. rewrite (Hall f Hf Hp). reflexivity.
+    + exfalso. destruct basic as [[u pw]|].
+      * destruct Hbh as [_ ->]. destruct Hin as [Heq|[]]. inversion Heq. destruct Hb as [Hb|Hb]; [discriminate|]. apply Hb. symmetry. assumption.
+      * subst bh. destruct Hin.
+  - exists (n, add_prefix (b && String.eqb n authorization) v). split; [|reflexivity].
+    apply in_or_app. left. apply in_hdr_write. exists f0. repeat split; try assumption. rewrite (Hall f0 Hf0 Hp0). reflexivity.
+Qed.
+
+Lemma decode_header_group b basic fs w n v :
+  encode_wire b basic fs = Some w -> (basic = None \/ n <> authorization) ->
+  (forall f, In f fs -> f_place f = PHeader n -> f_val f = v) ->
+  (exists f, In f fs /\ f_place f = PHeader n) ->
+  decode_place (PHeader n) true w = header_roundtrip (b && String.eqb n authorization) v.
+Proof. intros He Hb Hall Hex. unfold decode_place. rewrite (wire_header_value _ _ _ _ _ _ He Hb Hall Hex). reflexivity. Qed.
+
+Lemma decode_query_value b basic fs w n v :
+  encode_wire b basic fs = Some w ->
+  (forall f, In f fs -> f_place f = PQuery n -> f_val f = v) -> (exists f, In f fs /\ f_place f = PQuery n) ->
+  decode_place (PQuery n) false w = v.
+Proof.
+  intros He Hall [f0 [Hf0 Hp0]]. destruct (encode_wire_inv _ _ _ _ He) as [bh [_ [Hq _]]]. unfold decode_place. rewrite Hq.
+  rewrite (get_first_all_same n v); [reflexivity| |].
+  - intros [m x] Hin Hm. simpl in Hm. subst m. apply in_qry_write in Hin. destruct Hin as [f [Hf [Hp ->]]]. simpl. exact (Hall f Hf Hp).
+  - exists (n, v). split; [|reflexivity]. apply in_qry_write. exists f0. repeat split; try assumption. symmetry. exact (Hall f0 Hf0 Hp0).
+Qed.
+
+Lemma decode_body_value b basic fs w n v :
+  encode_wire b basic fs = Some w ->
+  (forall f, In f fs -> f_place f = PBody n -> f_val f = v) -> (exists f, In f fs /\ f_place f = PBody n) ->
+  decode_place (PBody n) false w = v.
+Proof.
+  intros He Hall [f0 [Hf0 Hp0]]. destruct (encode_wire_inv _ _ _ _ He) as [bh [_ [_ [Hbd _]]]]. unfold decode_place. rewrite Hbd.
+  rewrite (get_first_all_same n v); [reflexivity| |].
+  - intros [m x] Hin Hm. simpl in Hm. subst m. apply in_body_write in Hin. destruct Hin as [f [Hf [Hp ->]]]. simpl. exact (Hall f Hf Hp).
+  - exists (n, v). split; [|reflexivity]. apply in_body_write. exists f0. repeat split; try assumption. symmetry. exact (Hall f0 Hf0 Hp0).
+Qed.
+
+Lemma get_last_snoc n v log : get_last n (log ++ [(n, v)]) = Some v.
+Proof. unfold get_last. rewrite rev_app_distr. simpl. rewrite String.eqb_refl. reflexivity. Qed.
+
+Lemma drop_basic_word x : drop_prefix basic_word (basic_word ++ x) = Some x.
+Proof. reflexivity. Qed.
+
+Lemma wire_basic b u pw fs :
+  (has_colon u = true /\ encode_wire b (Some (u, pw)) fs = None) \/
+  (has_colon u = false /\ exists w, encode_wire b (Some (u, pw)) fs = Some w /\ decode_basic w = Some (u, pw)).
+Proof.
+  unfold encode_wire. destruct (has_colon u) eqn:E; [left; split; reflexivity|right; split; [reflexivity|]].
+  eexists. split; [reflexivity|]. unfold decode_basic. cbn [w_hdr]. rewrite get_last_snoc. cbv beta iota. rewrite drop_basic_word.
+  apply cut_colon_join, has_colon_false, E.
+Qed.
+
+(* nothing is written anywhere but in the designed places *)
+Lemma wire_only_designed b basic fs w : encode_wire b basic fs = Some w ->
+  (forall n x, In (n, x) (w_hdr w) -> (exists f, In f fs /\ f_place f = PHeader n) \/ (n = authorization /\ basic <> None)) /\
+  (forall n x, In (n, x) (w_qry w) <-> exists f, In f fs /\ f_place f = PQuery n /\ x = f_val f) /\
+  (forall n x, In (n, x) (w_body w) <-> exists f, In f fs /\ f_place f = PBody n /\ x = f_val f).
+Proof.
+  intro He. destruct (encode_wire_inv _ _ _ _ He) as [bh [Hh [Hq [Hbd Hbh]]]]. rewrite Hh, Hq, Hbd. repeat split.
+  - intros n x Hin. apply in_app_or in Hin. destruct Hin as [Hin|Hin].
+    + left. apply in_hdr_write in Hin. destruct Hin as [f [Hf [Hp _]]]. exists f. split; assumption.
+    + right. destruct basic as [[u pw]|]; [|subst bh; destruct Hin].
+      destruct Hbh as [_ ->]. destruct Hin as [Heq|[]]. inversion Heq. split; [reflexivity|discriminate].
+  - apply in_qry_write.
+  - apply in_qry_write.
+  - apply in_body_write.
+  - apply in_body_write.
+Qed.
